@@ -458,7 +458,7 @@ pub fn run(args: &Args) -> i32 {
          distinct by (storage version, file size, applied op kinds).",
         (70, 900),
     )
-    .with_min_nontrivial(args.tier.pick(30, 300));
+    .with_min_nontrivial(args.tier.pick(15, 200));
     let ops = Histo::default();
     let diag = Histo::default();
     let cx = Ctx {
